@@ -301,3 +301,49 @@ def run_line_cases(drv, lines, out, extra_args=(), timeout=1200, nchunk=None):
         for r in ex.map(one, jobs):
             crashes += r
     return [j[2] for j in jobs], {(j[2], k + 1): orig for j in jobs for k, orig in enumerate(j[3])}, crashes
+
+
+# ----------------------------------------------------------------------------- common driver-then-validate flow
+def drive_and_validate(pid, drv, cases, out, module, env=None, xmx='3g', xss=None, drv_timeout=1500, extra_args=None, nfiles=None):
+    """cases: list of (id, [lines]).  Splits them over NCPU case files, runs the driver on each (in parallel), marks an aborted
+    run with a Crash event (cutting a torn last line), validates every trace with <module>, saves a replay file per rejection.
+    Returns (violations [(text, replay path)], executions, known-finding ids, per-file results)."""
+    import concurrent.futures as cfu
+    jobs = []
+    nfiles = nfiles or NCPU
+    for ci in range(nfiles):
+        ch = cases[ci::nfiles]
+        if not ch:
+            continue
+        cf_ = os.path.join(out, 'cases-%02d.txt' % ci)
+        with open(cf_, 'w') as f:
+            for _, ls in ch:
+                f.write('\n'.join(ls) + '\n')
+        jobs.append((cf_, os.path.join(out, 'trace-%02d.ndjson' % ci)))
+    crashes = []
+
+    def rundrv(j):
+        rc, o = run_driver(drv, [j[0], j[1]] + list(extra_args or []), timeout=drv_timeout)
+        return j, rc, o
+    with cfu.ThreadPoolExecutor(max_workers=NCPU) as ex:
+        for j, rc, o in ex.map(rundrv, jobs):
+            if rc != 0 or sanitizer_reports(o):
+                crashes.append((j, rc, o[-8000:]))
+                data = open(j[1], 'rb').read() if os.path.exists(j[1]) else b''
+                if not data.endswith(b'\n'):
+                    data = data[:data.rfind(b'\n') + 1]
+                with open(j[1], 'wb') as f:
+                    f.write(data + b'{"e":"Crash"}\n')
+    results = validate_traces(module, [j[1] for j in jobs], env=env, xmx=xmx, xss=xss)
+    bycase = dict(cases)
+    vio, nexec, known = [], 0, set()
+    for r in results:
+        nexec += r['executions']
+        known |= set(r.get('known', []))
+        for rj in r['rejected']:
+            p = save_replay(pid, 'case-%d.txt' % rj['id'], '\n'.join(bycase.get(rj['id'], [])) + '\n# ' + rj['why'] + '\n')
+            vio.append(('%s (case %d, %s line %d)' % (rj['why'], rj['id'], os.path.basename(r['trace']), rj['line']), p))
+    for (j, rc, o) in crashes:
+        p = save_replay(pid, 'crash-%s.log' % os.path.basename(j[0]), o)
+        vio.append(('driver aborted / sanitizer report (rc=%d) on %s' % (rc, j[0]), p))
+    return vio, nexec, known, results
